@@ -481,3 +481,5 @@ add('C03', 'run-mask-cut-at-word *', ALPHA, [(MASK_INIT, RUNMASK), (MASK_LOOP, "
 FOLD = "        prob = base_prob\n\n        for item in pt:\n            pt_type = item[0]\n            index = item[1]\n            prob *= self.grammar[pt_type][index]['prob']\n\n        return prob"
 add('*', 'findprob-as-reduce', PGF, [("import random\n", "import random\nimport operator\nfrom functools import reduce\n"), (FOLD, "        return reduce(operator.mul, (self.grammar[item[0]][item[1]]['prob'] for item in pt), base_prob)")], None, 'silent')
 add('C01', 'findprob-as-reduce-from-one', PGF, [("import random\n", "import random\nimport operator\nfrom functools import reduce\n"), (FOLD, "        return reduce(operator.mul, (self.grammar[item[0]][item[1]]['prob'] for item in pt), 1.0)")], None, 'fire', 'C01.R3')
+RECASE = "        for value, label in section_list:\n            if label and label[0] == 'A':\n                lowered = value.lower()\n                if len(lowered) != len(value) or any(\n                        (low.upper() if orig.isupper() else low) != orig\n                        for orig, low in zip(value, lowered)):\n                    cur_prob = 0\n"
+add('C13', 'revert-fix-3b08f17 (no re-casing guard in the scorer)', SPS, RECASE, "", 'fire', 'C13.R14')
